@@ -50,6 +50,12 @@ BOUNDS = {
         "raise_rotated": "weight 2 over 11 kinds (QUICK2_KINDS) LF and weight<=1 over all kinds CRLF: every (program,position,kind) "
         "on one rotating path + the 2 principal kinds on all 5 paths + format_exceptions on one path",
         "warn": "weight<=1 (all kinds, LF) and weight 2 over {block, ablock, defb}: every position x 8 warning plants x 5 paths x {always,once,error}",
+        "recompiled_module_file": "weight<=1 all kinds LF: every position x {${1/0}, <% %> line 2, <%! %> function, 4 warning plants} x "
+        "{same lookup with filesystem_checks, new lookup on the same module directory}: version 1 -> observe -> 2 lines inserted "
+        "at the top of every file, 10 s later -> reload in the same process -> observe",
+        "failed_construction_then_retry": "weight<=1 single-file programs: every position x 7 warning plants x 4 ways a first "
+        "construction under the same word-character URI raises (ImportError in <%! %>, module SyntaxError, warning-as-error at "
+        "module compile, warning-as-error at expression parse)",
         "raise_kinds": c12_ir.RAISE_KINDS,
         "warn_kinds": c12_ir.WARN_KINDS,
         "paths": PATHS,
@@ -58,6 +64,8 @@ BOUNDS = {
         "raise_full_product": "weight<=2 over all 32 kinds, LF: every position x 12 raise kinds x 5 paths",
         "raise_rotated": "weight 3 over 8 kinds (W3_KINDS) LF; weight<=2 over the 21 core kinds CRLF (rotating path + principal kinds on all paths)",
         "warn": "weight<=1 all kinds LF and CRLF, weight 2 over 12 kinds (WARN2_KINDS) LF: every position x 8 warning plants x 5 paths x {always,once,error}",
+        "recompiled_module_file": "as quick, over weight<=2 (QUICK2_KINDS) LF and weight 1 all kinds LF+CRLF",
+        "failed_construction_then_retry": "as quick, over weight<=2 (QUICK2_KINDS) and weight 1 all kinds",
         "raise_kinds": c12_ir.RAISE_KINDS,
         "warn_kinds": c12_ir.WARN_KINDS,
         "paths": PATHS,
@@ -69,7 +77,10 @@ RULE = (
     "nesting included), simplest first; positions: every insertion point of every body list; one plant per case. "
     "Canonical case = (program, newline style, position, plant kind); it is executed once per construction path "
     "(and warning filter action).  Non-trivial = the planted line is not line 1 of its file or the expected chain "
-    "has more than one template frame (the reported line then depends on what was emitted before / around the plant)."
+    "has more than one template frame (the reported line then depends on what was emitted before / around the plant). "
+    "Two history families (each case = a two-step sequence in one process, always counted non-trivial): a module-directory "
+    "template observed, edited so that every line moves, reloaded and observed again; a construction that raises followed by "
+    "a warning-emitting template under the same URI."
 )
 ASSUMPTIONS = [
     "CPython eval/exec/compile (with line offsets), traceback.extract_tb and the warnings module are trusted",
@@ -89,6 +100,10 @@ ASSUMPTIONS = [
     "a def default in a re-opened module directory: the template is not compiled again and the regenerated signature carries "
     "no warning-triggering literal, so the number of warnings shown there is not demanded",
     "sys.dont_write_bytecode is on (no .pyc), so a re-opened module directory compiles the module file again",
+    "universal: warnings.showwarning must be the same object before and after every construction+render of every case, "
+    "whether it failed or not (checked inside the recording context, before that context restores the hook itself)",
+    "history families cover process-wide state reached through the module path / the module id only (one edit of 2 comment "
+    "lines per file, one failed construction); longer histories are C14/C15's business",
 ]
 LEVEL_TEXT = (
     "Within the bounds every planted failure / warning literal is executed on the real library and every template "
@@ -440,6 +455,16 @@ def judge_shown(ck, planted, expected, names, kind, path, low, site, pfx=""):
             ck.bad(pfx + "warn:%s:line:%s" % (kind, rel), "warning shown against another line than the planted one", lines, oln)
 
 
+def coarse(sig):
+    """footprint of a history-dependent failure: drop the frame / plant kind, keep oracle and direction"""
+    parts = sig.split(":")
+    if parts[:2] == ["tb", "line"] and len(parts) == 4:
+        return "tb:line:" + parts[3]
+    if parts[0] == "warn" and len(parts) >= 3:
+        return "warn:" + ":".join(parts[2:])
+    return sig
+
+
 def hook_check(ck, st, before, when):
     """universal: Template construction / render leaves warnings.showwarning as it found it"""
     st.oracles["showwarning_restored"] += 1
@@ -608,7 +633,7 @@ class Runner:
 
     # ---- history: a module-directory template is edited and loaded again in the same process
     def run_hist(self, body, nl, site, kind, reload, k=2):
-        """version 1 -> observe -> every file rewritten with k lines inserted at its top (mtime +2 s) -> reloaded in the
+        """version 1 -> observe -> what version 1 left behind aged by 10 s, every file rewritten with k lines inserted at its top -> reloaded in the
         same process (reload = 'checks': same TemplateLookup with filesystem_checks; 'newlookup': a new TemplateLookup on
         the same module directory) -> observe again.  Each observation must map to its own version's lines."""
         import linecache
@@ -631,12 +656,16 @@ class Runner:
                 low = c12_ir.lower(body, nl, kind, site, self.seed, prefix)
                 ref = c12_ir.reference(low, self.ctx)
                 ck = Checker(low, st)
-                _write_files(low, d)
                 if step == 2:
-                    for uri in low.files:
-                        fp = d + uri
-                        mt = max(os.stat(fp).st_mtime, time.time()) + 2
-                        os.utime(fp, (mt, mt))
+                    # "ten seconds pass" between the two versions: everything version 1 left behind is aged instead of
+                    # stamping version 2 into the future (a template newer than the clock is recompiled at every access)
+                    old = time.time() - 10
+                    for root, _dirs, fns in os.walk(m):
+                        for fn in fns:
+                            os.utime(os.path.join(root, fn), (old, old))
+                    for t in list(lk._collection.values()):
+                        t.module._modified_time -= 10
+                _write_files(low, d)
                 if lk is None or (step == 2 and reload == "newlookup"):
                     lk = TemplateLookup(directories=[d], module_directory=m, filesystem_checks=True)
                 b = Built()
@@ -700,7 +729,7 @@ class Runner:
                         viol.append((sig, "version 2: " + text, exp, obs))
                     else:
                         # holds for version 1, fails for the edited version loaded in the same process
-                        viol.append(("recompiled:" + sig, "after the template was edited and loaded again (%s): %s" % (reload, text), exp, obs))
+                        viol.append(("recompiled:" + coarse(sig), "after the template was edited and loaded again (%s): %s" % (reload, text), exp, obs))
         finally:
             for fn in popped:
                 linecache.cache.pop(fn, None)
@@ -764,6 +793,8 @@ class Runner:
             judge_shown(ck, planted, low.plant_info["warn"], {low.main: {uri}}, kind, "string", low, site, pfx)
         st.outcomes[label] += 1
         for sig, text, exp, obs in ck.viol:
+            if sig.startswith(pfx):
+                sig = pfx + coarse(sig[len(pfx):])
             st.violation(sig, case, "failed construction then retry (%s): %s" % (way, text), expected=core.jsonable(exp), observed=core.jsonable(obs))
         return label
 
